@@ -20,6 +20,9 @@ type WriteOp struct {
 	Val     string `json:"val"`
 	Mut     string `json:"mut,omitempty"` // update: as CrudOp.Mut
 	SleepMs int    `json:"sleep_ms,omitempty"`
+	// After: issue the write right after a named harness event ("read:<probe>": that controller finished reading an
+	// input, "end:<probe>": its reconcile returned) instead of at a random time
+	After string `json:"after,omitempty"`
 }
 
 // Ack is an acknowledged (successful) write.
@@ -37,11 +40,18 @@ type writer struct {
 	acks *[]Ack
 	ev   *int64
 	out  *Outcome
+	trig *eventTriggers
 }
 
 func (w *writer) do(ctx context.Context, op WriteOp) {
 	if op.SleepMs > 0 {
 		simrt.Sleep(time.Duration(op.SleepMs) * time.Millisecond)
+	}
+	if op.After != "" && w.trig != nil {
+		if !w.trig.wait(ctx, op.After) {
+			return
+		}
+		w.out.fault("reactive-writer:" + strings.SplitN(op.After, ":", 2)[0])
 	}
 	simrt.Yield("writer.op")
 	ns := op.NS
